@@ -999,3 +999,36 @@ Proof.
   replace (replicate_msgs H (bd_node (Some 60))) with (map (fun t => Replicate 0 t 0 [(1, TChunk)]) [101; 102; 103; 104; 105; 106]) by reflexivity.
   cbn. tauto.
 Qed.
+
+(* ---------------------------------------------------------------- irrelevant-record clean-up *)
+(* the clean-up touches the store only: the fetcher keeps its range and its in-flight set, so every
+   advertised unheld key within the fetch range is still fetched afterwards (in_range_is_fetched applies to
+   the cleaned node with the same in_range) *)
+Lemma cleanup_keeps_fetcher D n :
+  fetch_range (cleanup D n) = fetch_range n /\ store_range (cleanup D n) = store_range n /\
+  inflight (cleanup D n) = inflight n /\ table (cleanup D n) = table n /\ self (cleanup D n) = self n /\
+  (forall k, in_range D (cleanup D n) k = in_range D n k) /\
+  (forall h, accepts_holder (cleanup D n) h = accepts_holder n h).
+Proof. unfold cleanup. destruct (store_range n) eqn:E; cbn; rewrite ?E; repeat split; reflexivity. Qed.
+
+Lemma lookup_filter_none (p : key * content -> bool) k l : lookup k l = None -> lookup k (filter p l) = None.
+Proof.
+  induction l as [|[k' c] r IH]; cbn; [auto|]. destruct (N.eqb_spec k k') as [->|Hne]; [discriminate|].
+  intros E. destruct (p (k', c)); cbn; [destruct (N.eqb_spec k k'); [contradiction|]|]; apply IH; exact E.
+Qed.
+
+Lemma cleanup_only_removes D n k : lookup k (held n) = None -> lookup k (held (cleanup D n)) = None.
+Proof.
+  unfold cleanup. destruct (store_range n); cbn; [apply lookup_filter_none|auto].
+Qed.
+
+Lemma after_cleanup_in_range_is_fetched D n h keys k t :
+  accepts_holder n h = true -> In (k, t) keys -> lookup k (held n) = None -> in_range D n k = true ->
+  kt_mem (k, t) (inflight (fst (on_replicate D (cleanup D n) h keys))) = true.
+Proof.
+  intros Ha Hin Hl Hr. destruct (cleanup_keeps_fetcher D n) as (_ & _ & _ & _ & _ & Hir & Hacc).
+  apply (in_range_is_fetched D (cleanup D n) h keys k t); auto.
+  - rewrite Hacc. exact Ha.
+  - apply cleanup_only_removes. exact Hl.
+  - rewrite Hir. exact Hr.
+Qed.
